@@ -140,3 +140,110 @@ def subst_upvars(crate, cf, e):
             return (x[0], x[1], go(x[2]))
         return x
     return go(e)
+
+
+def agg_fields(fn, bi, st):
+    """field name -> operand expression of a struct aggregate statement"""
+    rv = st['rv']
+    names = rv['kind'].get('fields', [])
+    ops = [fn.operand_expr(o, bi) for o in rv['ops']]
+    return dict(zip(names, ops))
+
+
+def struct_sites(fn, path_suffix):
+    for bi, si, st in fn.assigns():
+        rv = st['rv']
+        if rv['r'] == 'agg' and rv['kind'].get('k') == 'adt' and rv['kind']['path'].endswith(path_suffix):
+            yield bi, st, agg_fields(fn, bi, st)
+
+
+def container_root(fn, operand, depth=0):
+    """root place of a container operand, looking through deref_mut()/as_mut_slice()-style calls"""
+    r = fn.root_place(operand)
+    if r is None or depth > 6:
+        return r
+    base, fields = r
+    if base[0] == 'var':
+        ds = fn.defs.get(base[1], [])
+        if len(ds) == 1 and ds[0][0] == 'call':
+            t = ds[0][3]
+            p = t['callee'].get('path') or t['callee'].get('def') or ''
+            if short(p) in ('deref', 'deref_mut', 'as_mut_slice', 'as_slice', 'as_mut', 'as_ref', 'borrow_mut', 'borrow') and t['args'] and t['args'][0]['o'] in ('copy', 'move'):
+                return container_root(fn, t['args'][0], depth + 1)
+    return r
+
+
+def def_site(fn, local):
+    """(fn name, block) of the single call defining a local, or None"""
+    ds = fn.defs.get(local, [])
+    if len(ds) == 1 and ds[0][0] == 'call':
+        return (fn.name, ds[0][1])
+    return None
+
+
+def _operands_of(fn):
+    for bi in sorted(fn.reach):
+        b = fn.blocks[bi]
+        for st in b['stmts']:
+            if st['s'] != 'assign':
+                continue
+            rv = st['rv']
+            for k in ('a', 'b'):
+                if k in rv and isinstance(rv[k], dict):
+                    yield bi, st.get('line'), rv[k]
+            for o in rv.get('ops', []):
+                yield bi, st.get('line'), o
+        t = b['term']
+        if t['t'] == 'call':
+            for a in t['args']:
+                yield bi, t.get('line'), a
+        elif t['t'] == 'switch':
+            yield bi, t.get('line'), t['d']
+
+
+def string_consts(fn, include_promoted=True):
+    """(block, line, text) of every string / byte-string literal operand of a function"""
+    out = []
+    for bi, line, o in _operands_of(fn):
+        if o.get('o') == 'const' and o['c'].get('k') == 'val':
+            s = o['c'].get('s', '')
+            if s.startswith('const '):
+                s = s[6:]
+            if s.startswith('"') or s.startswith('b"'):
+                out.append((bi, line, s[s.index('"') + 1:].rstrip('"')))
+    if include_promoted:
+        for p in fn.promoted:
+            for bi, line, text in string_consts(p, False):
+                out.append((0, line, text))
+    return out
+
+
+def local_uses(fn, l):
+    """places where local l is read: (block, kind, detail)"""
+    uses = []
+    for bi in sorted(fn.reach):
+        b = fn.blocks[bi]
+        for st in b['stmts']:
+            if st['s'] != 'assign':
+                continue
+            rv = st['rv']
+            ops = [rv[k] for k in ('a', 'b') if k in rv and isinstance(rv[k], dict)] + list(rv.get('ops', []))
+            for o in ops:
+                if o.get('o') in ('copy', 'move') and o['pl']['l'] == l:
+                    uses.append((bi, 'stmt', st))
+            if rv['r'] in ('ref', 'rawptr', 'discr') and rv['pl']['l'] == l:
+                uses.append((bi, rv['r'], st))
+            if st['pl']['l'] == l and st['pl']['p']:
+                uses.append((bi, 'write-through', st))
+        t = b['term']
+        if t['t'] == 'call':
+            for a in t['args']:
+                if a.get('o') in ('copy', 'move') and a['pl']['l'] == l:
+                    uses.append((bi, 'arg', t))
+        elif t['t'] == 'switch':
+            if t['d'].get('o') in ('copy', 'move') and t['d']['pl']['l'] == l:
+                uses.append((bi, 'switch', t))
+        elif t['t'] == 'assert':
+            if t['cond'].get('o') in ('copy', 'move') and t['cond']['pl']['l'] == l:
+                uses.append((bi, 'assert', t))
+    return uses
